@@ -12,6 +12,7 @@ Everything checked is an "eventually" fact (polled with a deadline), so thread t
 import os
 import shutil
 import socket
+import struct
 import tempfile
 import threading
 import time
@@ -26,7 +27,7 @@ DEADLINE = 20.0
 
 
 class RealDaemon:
-    def __init__(self, servertype, poolsize, commtimeout):
+    def __init__(self, servertype, poolsize, commtimeout, tcp=False):
         from Pyro5 import config, server
         self.saved = (config.SERVERTYPE, config.THREADPOOL_SIZE, config.THREADPOOL_SIZE_MIN, config.COMMTIMEOUT,
                       config.MAX_MESSAGE_SIZE, config.POLLTIMEOUT)
@@ -65,7 +66,8 @@ class RealDaemon:
                 rd.execs.append(spec["token"])
                 raise ValueError("callback boom")
 
-        self.daemon = server.Daemon(unixsocket=self.path)
+        self.tcp = tcp
+        self.daemon = server.Daemon(host="127.0.0.1", port=0) if tcp else server.Daemon(unixsocket=self.path)
         self.target = Target()
         self.daemon.register(self.target, "target")
         self.objects = {k: id(v) for k, v in self.daemon.objectsById.items()}
@@ -82,7 +84,7 @@ class RealDaemon:
         self.thread.start()
 
     def uri(self):
-        return "PYRO:target@./u:" + self.path
+        return "PYRO:target@" + (self.daemon.locationStr if self.tcp else "./u:" + self.path)
 
     def proxy(self):
         from Pyro5 import client
@@ -91,6 +93,12 @@ class RealDaemon:
         return p
 
     def raw(self):
+        if self.tcp:
+            host, port = self.daemon.locationStr.rsplit(":", 1)
+            s = socket.socket(socket.AF_INET, socket.SOCK_STREAM)
+            s.settimeout(20.0)
+            s.connect((host, int(port)))
+            return s
         s = socket.socket(socket.AF_UNIX, socket.SOCK_STREAM)
         s.settimeout(20.0)
         s.connect(self.path)
@@ -167,13 +175,18 @@ def hostile(rd, act):
                     pass
             except OSError:
                 pass
+        elif act["close"] == "rst":
+            # hard reset instead of an orderly close (TCP only): the daemon's socket ends up in state CLOSE, where even
+            # getpeername() fails; give the daemon a moment to start reading first so that the reset meets a recv()
+            time.sleep(0.002)
+            s.setsockopt(socket.SOL_SOCKET, socket.SO_LINGER, struct.pack("ii", 1, 0))
     except OSError:
         pass
     finally:
         s.close()
 
 
-def gen_actions(rng, n):
+def gen_actions(rng, n, tcp=False):
     g = c05_gen.HistGen(rng)
     acts = []
     for _ in range(n):
@@ -197,14 +210,14 @@ def gen_actions(rng, n):
             c05_gen.classify(data, "eof", not shake, [base])
         except c05_gen.Unsafe:
             kind, data = "prefix", base["data"][:rng.randrange(len(base["data"]))]
-        acts.append({"shake": shake, "ser": ser, "hex": common.hx(data), "close": rng.choice(["now", "now", "drain"]), "kind": kind})
+        acts.append({"shake": shake, "ser": ser, "hex": common.hx(data), "close": rng.choice(["rst", "rst", "now", "drain"] if tcp else ["now", "now", "drain"]), "kind": kind})
     return acts
 
 
-def scenario(ctx, servertype, commtimeout, poolsize, acts1, acts2, case):
+def scenario(ctx, servertype, commtimeout, poolsize, acts1, acts2, case, tcp=False):
     """-> list of (signature, description)"""
     fails = []
-    rd = RealDaemon(servertype, poolsize, commtimeout)
+    rd = RealDaemon(servertype, poolsize, commtimeout, tcp)
     try:
         w = [rd.proxy(), rd.proxy()]
         tok = [100]
@@ -272,7 +285,7 @@ def scenario(ctx, servertype, commtimeout, poolsize, acts1, acts2, case):
                         continue
                 break
         if rd.loop_exc or rd.loop_returned or not rd.thread.is_alive():
-            fails.insert(0, ("real:loop-stopped:" + servertype, "%s server (real unix sockets): requestLoop() was left: %s"
+            fails.insert(0, ("real:loop-stopped:" + servertype, "%s server (real sockets): requestLoop() was left: %s"
                              % (servertype, rd.loop_exc or "returned")))
             return fails
         if r != 999:
@@ -306,22 +319,22 @@ def _run(ctx):
     n1, n2 = (24, 8) if ctx.tier != "thorough" else (60, 20)
     for _ in range(rounds):
         for servertype in ("thread", "multiplex"):
-            for commtimeout in (0.0, 30.0):
-                acts1 = gen_actions(rng, n1)
-                acts2 = gen_actions(rng, n2)
+            for commtimeout, tcp in ((0.0, False), (30.0, False), (0.0, True)):
+                acts1 = gen_actions(rng, n1, tcp)
+                acts2 = gen_actions(rng, n2, tcp)
                 poolsize = rng.choice([3, 4])
                 case = {"real_sockets": True, "servertype": servertype, "commtimeout": commtimeout, "poolsize": poolsize,
-                        "acts1": acts1, "acts2": acts2}
+                        "acts1": acts1, "acts2": acts2, "tcp": tcp}
                 ctx.evaluations += len(acts1) + len(acts2)
-                for sig, desc in scenario(ctx, servertype, commtimeout, poolsize, acts1, acts2, case):
-                    ctx.fail(sig, desc, case)
+                for sig, desc in scenario(ctx, servertype, commtimeout, poolsize, acts1, acts2, case, tcp):
+                    ctx.fail(sig + (":tcp" if tcp else ""), desc, case)
 
 
 def replay(ctx, c):
     class Quiet:
         def count(self, *a):
             pass
-    fails = scenario(Quiet(), c["servertype"], c["commtimeout"], c["poolsize"], c["acts1"], c["acts2"], c)
+    fails = scenario(Quiet(), c["servertype"], float(c["commtimeout"]), c["poolsize"], c["acts1"], c["acts2"], c, bool(c.get("tcp")))
     for sig, desc in fails:
         print("  ", sig, "-", desc)
     print("VIOLATION reproduced" if fails else "not reproduced")
